@@ -168,6 +168,12 @@ pub fn alias_into_local_data(
     qtype: QueryType,
     rrs: &[ResourceRecord],
 ) -> Option<(usize, DomainName)> {
+    // a question for the alias itself is answered by the alias, not by what
+    // it points to: there is nothing to resolve afresh
+    if qtype == QueryType::Record(RecordType::CNAME) {
+        return None;
+    }
+
     for (i, rr) in rrs.iter().enumerate() {
         if let RecordTypeWithData::CNAME { cname } = &rr.rtype_with_data {
             let is_local = match zones.resolve(cname, qtype) {
